@@ -57,7 +57,8 @@ def run(ck, rng, tier, prop="C01"):
         scaling = rng.choice((-1, 0, 1, 2, 3, 4, 5))
         kind = rng.choice(("general", "general", "general", "small"))
         X = gen_data(rng, n, m, kind)
-        Xc = np.array(X) - np.array(X).mean(axis=0) if scaling >= 0 else np.array(X)
+        from props import c02
+        Xc = c02.preprocess(np.array(X), scaling)
         rank = int(np.linalg.matrix_rank(Xc, tol=1e-8 * max(1.0, np.abs(Xc).max())))
         if rank < 1:
             continue
@@ -69,7 +70,7 @@ def run(ck, rng, tier, prop="C01"):
         ck.count("scaling %d" % scaling)
         ck.count("nproc %d" % nproc)
         ck.count("kind %s" % kind)
-    rc, outs, err = vf.run_driver(exe, "cap 3000000\n" + "\n".join(lines) + "\n", timeout=1500)
+    rc, outs, err = vf.run_driver(exe, "cap 400000\n" + "\n".join(lines) + "\n", timeout=1500)
     if rc != 0 or len(outs) != len(meta):
         ck.broken("driver drv_pca", "rc=%s cases=%d/%d %s" % (rc, len(outs), len(meta), err[-800:]))
         return
@@ -81,7 +82,7 @@ def run(ck, rng, tier, prop="C01"):
         ck.case(("pca", n, m, scaling, npc, repr(X[0])), nontrivial=n >= 3 and npc >= 1,
                 sample={"shape": (n, m), "scaling": scaling, "npc": npc, "rank": rank, "threads": nproc, "kind": kind} if i % 17 == 0 else None)
         if o.get("nonterminating"):
-            ck.fail("PCA", "nontermination_full_rank_request", "PCA did not return within %d inner iterations although npc <= rank" % 3000000,
+            ck.fail("PCA", "nontermination_full_rank_request", "PCA did not return within %d inner iterations although npc <= rank" % 400000,
                     {"X": X, "scaling": scaling, "npc": npc})
             continue
         T, P, D = cols(o["scores"]), cols(o["loadings"]), cols(o["dmodx"])
